@@ -254,6 +254,51 @@ def twice_case(rng, rec, case):
             shutil.rmtree(root, ignore_errors=True)
 
 
+def timeout_case(rng, rec, case):
+    '''The optional `timeout` of the subprocess arguments: a command that is
+    still running when it expires did not exit with status zero -- the task
+    is not DONE and the commands after it are not run.'''
+    from valjean.cosette.run import RunTask
+    from valjean.cosette.env import Env
+    import subprocess
+    root = setup_root()
+    try:
+        name = rng.choice(NAMES)
+        before = gen_task(rng, root, 'o', ncmd=rng.choice([0, 1]) or 1,
+                          codes=[0], bad=(9, 'sh'))
+        if rng.random() < 0.5:
+            before = []
+        after = gen_task(rng, root, 'p', ncmd=1, codes=[0], bad=(9, 'sh'))
+        slow_marker = os.path.join(root, 'markers', 'slow')
+        slow = ['sh', '-c', f": > '{slow_marker}'; sleep 3; exit 0"]
+        clis = [c['cli'] for c in before] + [slow] + [c['cli'] for c in after]
+        task = RunTask.from_clis(name, clis, timeout=0.25)
+        rec.count('timeout_cases')
+        status, raised = None, None
+        try:
+            _, status = task.do(Env(), make_config(root))
+        except subprocess.TimeoutExpired as err:
+            raised = err       # the scheduler turns this into FAILED
+        except Exception as err:  # pylint: disable=broad-except
+            rec.violation(f'do-raised-{type(err).__name__}-on-timeout',
+                          repr(err), case)
+            return
+        if not os.path.exists(slow_marker):
+            rec.violation('command-not-run', f'{name!r}: the slow command '
+                          'did not start', case)
+        if raised is None and getattr(status, 'name', '') == 'DONE':
+            rec.violation('status-DONE-although-a-command-was-killed-by-the-'
+                          'timeout', f'{name!r}: commands {len(clis)}, the '
+                          'slow one was killed after 0.25 s', case)
+        if os.path.exists(after[0]['marker']):
+            rec.violation('command-run-after-first-failure',
+                          f'{name!r}: the command after the one killed by '
+                          'the timeout was run', case)
+        rec.seen(('timeout', len(before)))
+    finally:
+        shutil.rmtree(root, ignore_errors=True)
+
+
 def relocate(cmds, root):
     '''Point the markers of pre-built commands to this root.'''
     out = []
@@ -466,6 +511,8 @@ def one(rng, idx, rec, case):
     elif idx % 3 == 1:
         if idx % 12 == 1:
             twice_case(rng, rec, case)
+        elif idx % 60 == 4:
+            timeout_case(rng, rec, case)
         else:
             direct_case(rng, rec, case)
     else:
